@@ -313,7 +313,12 @@ def cbc_server(sock, proto, deviation, chain_der, sign_d, enc_d=0, other_d=54321
     # the library's TLS 1.2 client insists on its ec_point_formats / supported_groups / signature_algorithms extensions being answered
     e_pf, e_gr, e_sa = ext(11, b"\x01\x00"), ext(10, u16(2) + u16(41)), ext(13, u16(2) + u16(0x0708))
     sx = b"" if tlcp else (e_pf if "only_ecpf" in deviation else e_pf + e_sa if "no_groups" in deviation else e_pf + e_gr if "no_sigalg" in deviation else e_pf + e_gr + e_sa)
-    p.send_hs(2, ver + srandom + b"\x00" + (b"\xe0\x13" if tlcp else b"\xe0\x11") + b"\x00" + (u16(len(sx)) + sx if sx else b""))
+    suite = (b"\xe0\x13" if tlcp else b"\xe0\x11")
+    if deviation == "suite_not_offered": suite = b"\xe0\x11" if tlcp else b"\xe0\x13"
+    if deviation == "suite_unknown": suite = b"\xc0\x2f"
+    hver = {"version_lower": b"\x03\x01", "version_other": b"\x03\x04"}.get(deviation, ver)
+    comp = b"\x01" if deviation == "compression_nonzero" else b"\x00"
+    p.send_hs(2, hver + srandom + b"\x00" + suite + comp + (u16(len(sx)) + sx if sx else b""))
     certs = split_certs(chain_der)
     lst = b"".join(u24(len(c)) + c for c in certs)
     p.send_hs(11, u24(len(lst)) + lst)
@@ -390,7 +395,11 @@ def tls13_server(sock, deviation, chain_der, sign_d, other_d=54321, mut=None):
     ext = lambda t, d: u16(t) + u16(len(d)) + d
     exts = ext(43, b"\x03\x04") + ext(51, u16(41) + u16(65) + b"\x04" + sm2ref.i2b(sP[0]) + sm2ref.i2b(sP[1]))
     srandom = bytes((i * 17 + 9) & 255 for i in range(32))
-    p.send_hs(2, b"\x03\x03" + srandom + bytes([len(sid)]) + sid + b"\x00\xc6" + b"\x00" + u16(len(exts)) + exts, enc=False)
+    if deviation == "sid_not_echoed": sid = bytes([b ^ 1 for b in sid]) if sid else b"\x01"
+    suite13 = b"\xc0\x2f" if deviation == "suite_unknown" else (b"\x13\x01" if deviation == "suite_not_offered" else b"\x00\xc6")
+    if deviation == "version_other": exts = ext(43, b"\x03\x03") + exts[7:]
+    comp13 = b"\x01" if deviation == "compression_nonzero" else b"\x00"
+    p.send_hs(2, b"\x03\x03" + srandom + bytes([len(sid)]) + sid + suite13 + comp13 + u16(len(exts)) + exts, enc=False)
     shared = sm2ref.i2b(sm2ref.mul(se, cP)[0])
     zeros = bytes(32)
     early = K.hkdf_extract(T, "sm3", zeros, zeros)
